@@ -181,6 +181,21 @@ func ruleTabPriority(c *Ctx, r *R) {
 					if os.Getenv("GC_DEBUG") != "" {
 						fmt.Println("RANKPATH", condStrings(rp), "=>", retStrings(rp))
 					}
+					// the kinds the path has positively established (top-level conjuncts only); a path
+					// that establishes two kinds is infeasible (nested ifs instead of one && chain)
+					posKinds := map[string]bool{}
+					for _, cd := range rp.Conds {
+						cs := cd.String()
+						if strings.HasPrefix(cs, "!") {
+							continue
+						}
+						for _, m := range regexp.MustCompile(`\(E\.Symbol == "(\w+)"\)`).FindAllStringSubmatch(cs, -1) {
+							posKinds[m[1]] = true
+						}
+					}
+					if len(posKinds) > 1 {
+						continue
+					}
 					if len(rp.Ret) != 1 {
 						okAll = false
 						continue
@@ -213,6 +228,19 @@ func ruleTabPriority(c *Ctx, r *R) {
 					}
 					// a folded constant under E.Symbol == "kind" (the table is a package-level literal)
 					if kc, isConst := linOf(rp.Ret[0]).isConst(); isConst {
+						if posKinds["var"] {
+							noInit := strings.Contains(condStrings(rp), "len(E.Tokens[1].Tokens) == 0") && !strings.Contains(condStrings(rp), "!((E.Tokens[1].Symbol == \",\") && (len(E.Tokens[1].Tokens) == 0))")
+							r.check(noInit && kc > 0 && kc < prio["type"], "value-less var hoisted", c.Pos(fl), fmt.Sprintf("var declarations without an initialiser rank %d: above the statements, below the types", kc),
+								fmt.Sprintf("treeSort lifts some var declarations to rank %d on a condition that is not `no initialiser` or outside (0, %d): an initialised var would be moved past code it depends on, or a typed zero would be set before its type exists", kc, prio["type"]))
+							varLifted = true
+							continue
+						}
+						if len(posKinds) == 1 {
+							for k := range posKinds {
+								refined[k] = kc - prio[k]
+							}
+							continue
+						}
 						if km := regexp.MustCompile(`\(E\.Symbol == "(\w+)"\)`).FindStringSubmatch(condStrings(rp)); km != nil && !strings.HasPrefix(condStrings(rp), "!") {
 							refined[km[1]] = kc - prio[km[1]]
 							continue
